@@ -39,7 +39,9 @@ def scratch(tag):
 def run_demo(src_dir, tree):
     """Build and run the demo against `tree` (build.sh convention: it lives in <root>/SEEDED/X and builds ./demo there).
     Returns (exit code, output tail); 99 = could not build."""
-    work = os.path.join(tree, "SEEDED", "X")
+    letter = os.path.basename(os.path.normpath(src_dir))
+    letter = letter.split("-")[-1] if "-" in letter else letter        # kept copies are named <prop>-<letter>
+    work = os.path.join(tree, "SEEDED", letter)
     shutil.rmtree(os.path.join(tree, "SEEDED"), ignore_errors=True)
     shutil.copytree(src_dir, work, ignore=shutil.ignore_patterns("demo", "*.o", "meta.json"))
     if os.path.exists(os.path.join(work, "build.sh")):
